@@ -195,7 +195,7 @@ Proof.
                  set_fields s1 fs mf
                    (add_node_call (s_node s1)
                       (mkCall (remove_target target) "field" (m_ident0 m) "" []
-                              (mkPos (q_sl d) (q_sc d) (q_el d) (q_ec d + String.length target)))))
+                              (mkPos (q_sl d) (q_sc d) (q_el d) (q_ec d + rune_count target)))))
               (m_names m) st1))).
     { destruct (String.eqb (m_ident0 m) "").
       - eapply quiet_trans; [exact Q1|apply quiet_body_events].
@@ -214,7 +214,7 @@ Proof.
     destruct (String.eqb (m_kind m) "ctor") eqn:Ec.
     + set (f := mkFunc (m_name m) "" (if m_has_param_list m then map (fun p => mkProp (fst p) (snd p)) (m_params m) else [])
                        [] (s_override st2) (f_annots (s_method st2)) true false []
-                       (mkPos (q_sl (m_decl m)) (q_sc (m_decl m)) (q_el (m_decl m)) (q_ec (m_decl m) + String.length (m_name m)))).
+                       (mkPos (q_sl (m_decl m)) (q_sc (m_decl m)) (q_el (m_decl m)) (q_ec (m_decl m) + rune_count (m_name m)))).
       set (st3 := if m_has_param_list m then record_params st2 (m_params m) else st2).
       assert (Q3 : quiet_ext st st3)
         by (unfold st3; destruct (m_has_param_list m); [eapply quiet_trans; [exact Q2|apply quiet_record_params]|exact Q2]).
@@ -234,7 +234,7 @@ Proof.
     + destruct (String.eqb (m_kind m) "method") eqn:Em.
       * set (f := mkFunc (m_name m) (m_ret m) (if m_has_param_list m then map (fun p => mkProp (fst p) (snd p)) (m_params m) else [])
                          [] (s_override st2) (annots_of_first st2 m) false false []
-                         (mkPos (q_sl (m_ident m)) (q_sc (m_ident m)) (q_el (m_decl m)) (q_sc (m_ident m) + String.length (m_name m)))).
+                         (mkPos (q_sl (m_ident m)) (q_sc (m_ident m)) (q_el (m_decl m)) (q_sc (m_ident m) + rune_count (m_name m)))).
         set (st3 := if m_has_param_list m then record_params st2 (m_params m) else st2).
         assert (Q3 : quiet_ext st st3)
           by (unfold st3; destruct (m_has_param_list m); [eapply quiet_trans; [exact Q2|apply quiet_record_params]|exact Q2]).
@@ -253,7 +253,7 @@ Proof.
         rewrite R4. unfold expected_sig, member_params. rewrite Ec. reflexivity.
       * set (f := mkFunc (m_name m) (m_ret m) (if m_has_param_list m then map (fun p => mkProp (fst p) (snd p)) (m_params m) else [])
                          [] false [] false false []
-                         (mkPos (q_sl (m_ident m)) (q_sc (m_ident m)) (q_el (m_decl m)) (q_sc (m_ident m) + String.length (m_name m)))).
+                         (mkPos (q_sl (m_ident m)) (q_sc (m_ident m)) (q_el (m_decl m)) (q_sc (m_ident m) + rune_count (m_name m)))).
         set (st3 := if m_has_param_list m then record_params st2 (m_params m) else st2).
         assert (Q3 : quiet_ext st st3)
           by (unfold st3; destruct (m_has_param_list m); [eapply quiet_trans; [exact Q2|apply quiet_record_params]|exact Q2]).
